@@ -686,9 +686,13 @@ class Num(object):
                 return s
             return Num('q', z3.If(s.n >= 0, s.n, -s.n), s.d, ty=s.ty, iv=iv_abs(s.iv),
                        tree=_mk_tree1('abs', s) if s.ty is float else None)
-        if s.ang is not None:
-            # keep angle provenance: fork on the sign
-            return s if (s >= 0) else -s
+        if s.ang is not None and CUR is not None:
+            # keep the angle provenance when the sign is already decided by the path; otherwise no fork:
+            # the absolute value is then a plain number (it is only ever compared, e.g. abs(deg) >= 360)
+            if CUR._check(s.e < 0) == z3.unsat:
+                return s
+            if CUR._check(s.e > 0) == z3.unsat:
+                return -s
         return Num('r', e=z3.If(s.e >= 0, s.e, -s.e), ty=s.ty)
 
     def __round__(s, nd=None):
